@@ -237,8 +237,9 @@ class CFG:
     """Nodes reachable from `starts` without entering `blocked` nodes.
 
     `labels`: if given, only edges whose label is in the set are followed.
-    The start nodes themselves are included (even if blocked).
+    Start nodes that are blocked are dropped.
     """
+    starts = [s for s in starts if s not in blocked]
     seen = set(starts)
     work = list(seen)
     adj = self.pred if backward else self.succ
